@@ -95,7 +95,7 @@ Overflow == {<<127>> \o Rep(n, 255) \o <<x>> : n \in {255, 256, 257}, x \in {0, 
 DecStrings == UNION {Truncations(EncN(n)) \cup Substitutions(EncN(n)) \cup Extensions(EncN(n)) : n \in Seeds}
               \cup OneByte \cup TwoBytes \cup OddKids \cup Overflow
 
-DecCase(s) == LET e == IsEncoding(s) IN
+DecCase(s) == LET e == DeepEncoding(s) IN
   [t |-> "dec", s |-> s, enc |-> e, node |-> IF e THEN NodeJson(DecN(s).node) ELSE NodeJson(EmptyNode)]
 
 RtCase(n) == [t |-> "rt", node |-> NodeJson(n), enc |-> EncN(n)]
@@ -110,7 +110,7 @@ MNext == UNCHANGED cvars
 MSpec == MInit /\ [][MNext]_cvars
 
 (* C07 first sentence on the universe *)
-RtOK == cs.t = "rt" => WellFormed(cs.n) /\ RoundTrip(cs.n) /\ IsEncoding(EncN(cs.n))
+RtOK == cs.t = "rt" => WellFormed(cs.n) /\ RoundTrip(cs.n) /\ DeepEncoding(EncN(cs.n))
 
 (* C07 second sentence for the SPECIFICATION decoder: DecN is defined on   *)
 (* every string (TLC would stop on an undefined application), what it      *)
